@@ -53,3 +53,21 @@ func ZZReplicaActions(i int) []string {
 	}
 	return m.Actions
 }
+
+// ZZRegisteredRev: the revision count the controller recorded for a registered host.
+func (c *Controller) ZZRegisteredRev(host string) (int64, bool) {
+	r, ok := c.RegisteredReplicas[host]
+	return r.RevCount, ok
+}
+
+// ZZEmptyController: a controller with no replicas (bootstrap), replication factor rf.
+func ZZEmptyController(rf int) *Controller { return zzNewEnv(rf).c }
+func ZZHost(i int) string              { return zzHosts[i] }
+
+func (c *Controller) ZZRegisteredHosts() string {
+	s := ""
+	for h := range c.RegisteredReplicas {
+		s += "[" + h + "]"
+	}
+	return s
+}
